@@ -124,7 +124,15 @@ func runC06(c *ShardCtx) {
 					continue
 				}
 				known := ""
-				if o.Memoize && len(quirks) > 0 {
+				// the defect models explain DIFFERENT RESULTS (incl. not returning) only; repeated evaluations or an exceeded
+				// bound are never attributed to them
+				onlyResult := true
+				for _, d := range diffs {
+					if !strings.HasPrefix(d, "result differs") && !strings.HasPrefix(d, "did not return") {
+						onlyResult = false
+					}
+				}
+				if o.Memoize && len(quirks) > 0 && onlyResult {
 					ro := core.RefOptions(&o, b.Flags)
 					ro.Quirks = map[string]bool{peg.QMemo: true}
 					rm := peg.Run(g, in, script, ro)
